@@ -46,6 +46,22 @@ int main() {
     for (size_t k : {63u, 64u, 65u, 127u, 128u, 129u, 1023u, 1024u, 1025u, 4096u, 65536u}) { ss.push_back(k * g); ss.push_back(k * g * 2); ss.push_back(k * g * 4); }
     for (size_t s : ss) printf("POOL %u %u %" PRIu64 " %" PRIu64 "\n", g, unsigned(im->pool_count), uint64_t(s), uint64_t(JitAllocator_size_to_pool_id(im, s)));
   }
+  // argument classification of alloc(): sizes that must be refused (0, beyond 2^31 - 1 after rounding, wrap-around at 2^64) and
+  // small valid ones; code 0 = ok, 1 = kInvalidArgument, 2 = kTooLarge, 9 = anything else
+  for (uint32_t g : {64u, 128u, 256u}) {
+    JitAllocator::CreateParams p; p.granularity = g; p.block_size = 65536;
+    JitAllocator a(&p);
+    const uint64_t M = ~uint64_t(0);
+    const uint64_t ss[] = {0, 1, g - 1, g, g + 1, 4095, (uint64_t(1) << 31) - g + 1, (uint64_t(1) << 31) - 1, uint64_t(1) << 31, (uint64_t(1) << 31) + 1,
+                           uint64_t(1) << 32, uint64_t(1) << 40, uint64_t(1) << 63, M - 2 * g, M - g, M - g + 1, M - g + 2, M - 1, M};
+    for (uint64_t sz : ss) {
+      JitAllocator::Span sp;
+      Error e = a.alloc(Out(sp), size_t(sz));
+      int code = e == Error::kOk ? 0 : e == Error::kInvalidArgument ? 1 : e == Error::kTooLarge ? 2 : 9;
+      if (e == Error::kOk) (void)a.release(sp.rx());
+      printf("ALLOCERR %u %" PRIu64 " %d\n", g, sz, code);
+    }
+  }
   for (uint32_t g : {64u, 256u}) for (uint32_t bs : {65536u, 131072u, 1u << 26}) for (uint32_t multi = 0; multi < 2; multi++) for (uint32_t nopad = 0; nopad < 2; nopad++) {
     JitAllocator::CreateParams p; p.granularity = g; p.block_size = bs;
     p.options = (multi ? JitAllocatorOptions::kUseMultiplePools : JitAllocatorOptions::kNone) | (nopad ? JitAllocatorOptions::kDisableInitialPadding : JitAllocatorOptions::kNone);
